@@ -3,7 +3,7 @@
    copying append/insert/setitem, extend from a Structure, from a plain list (memo of ids) or with copy=True,
    slicing and boolean masks, + - * += -= *=, copies, constructors, deletions, reversal, pickling - the flag
    stays clear, hence (Proofs/C08_Step.v) no Structure holds an atom twice. *)
-From Coq Require Import List ZArith Bool Arith Lia.
+From Coq Require Import List ZArith Bool Arith Lia Permutation.
 From DS Require Import Model.C08_StructHeap Proofs.C08_Lists Proofs.C08_Prims Proofs.C08_Inv Proofs.C08_Step Proofs.C08_Spec.
 Import ListNotations.
 Open Scope nat_scope.
@@ -143,6 +143,21 @@ Qed.
 
 Close Scope Z_scope.
 
+(* the stable sort only permutes the positions *)
+Lemma insert_sorted_perm : forall before k x l, Permutation (insert_sorted before k x l) (x :: l).
+Proof.
+  induction l; simpl; auto. destruct (before (k x) (k a)); auto.
+  eapply perm_trans; [apply perm_skip; apply IHl|]. apply perm_swap.
+Qed.
+
+Lemma sort_positions_NoDup : forall rev keys, NoDup (sort_positions rev keys).
+Proof.
+  intros. unfold sort_positions.
+  assert (P : forall l, Permutation (fold_right (insert_sorted (if rev then Z.geb else Z.leb) (fun i => nth i keys 0%Z)) [] l) l).
+  { induction l; simpl; auto. eapply perm_trans; [apply insert_sorted_perm|]. apply perm_skip. auto. }
+  eapply Permutation_NoDup; [apply Permutation_sym; apply P|]. apply seq_NoDup.
+Qed.
+
 (* ---------------------------------------------------------------- the flag through the primitives *)
 
 Lemma install_dupflag : forall (h : hid) srcs e w, srcs_valid w srcs ->
@@ -199,7 +214,7 @@ Proof.
   - intros; discriminate.
 Qed.
 
-Lemma set_tags_dup : forall prs w, g_dup (set_tags prs w) = g_dup w.
+Lemma set_tags_dup : forall c prs w, g_dup (set_tags c prs w) = g_dup w.
 Proof. induction prs as [|[a t] r]; simpl; intros; auto. rewrite IHr. auto. Qed.
 
 Lemma do_extend_dupflag : forall h s c w, Inv w -> g_dup w = false -> c <> CFalse ->
@@ -402,6 +417,16 @@ Proof.
     destruct old as [|a0 old']; auto. destruct tags as [|t [|t2 ts]]; cbn [fst]; auto.
     + rewrite set_tags_dup. auto.
     + match goal with |- context [if ?c then _ else _] => destruct c end; cbn [fst]; auto. rewrite set_tags_dup. auto.
+  - (* Sort: a stable sort is a permutation of the positions *)
+    destruct (get_struct w h) as [[old L]|]; auto. destruct key; cbn [fst].
+    + rewrite install_dupflag; auto; [constructor|]. intros. apply pick_flag. apply sort_positions_NoDup.
+    + destruct (Nat.leb (length old) 1); auto.
+  - (* AssignUniqueLabels *)
+    destruct (get_struct w h) as [[old L]|]; auto. cbn [fst]. rewrite set_tags_dup. auto.
+  - (* GetLast *)
+    destruct (get_struct w h) as [[old L]|]; auto. destruct (nth_error (rev old) 0); auto.
+  - (* GetCol *) destruct (get_struct w h) as [[old L]|]; auto.
+  - (* Composition *) destruct (get_struct w h) as [[old L]|]; auto.
 Qed.
 
 Fixpoint never_asks (ops : list op) : bool :=
@@ -417,7 +442,7 @@ Proof.
 Qed.
 
 Definition never_asks_example : list op :=
-  [NewStruct; AddNewAtom 0 1%Z; AddNewAtom 0 2%Z; AddNewAtom 0 3%Z; NewList [4%Z; 5%Z];
+  [NewStruct; AddNewAtom 0 (lab 1); AddNewAtom 0 (lab 2); AddNewAtom 0 (lab 3); NewList [lab 4; lab 5];
    GetSlice 0 (mkSlice None None (Some (-2)%Z)); Add 0 2; Extend 3 1 CNone; Extend 3 1 CNone; IAdd 0 0;
    Append 0 (mkRef 0 0%Z) true; Mul 2 3%Z; GetMask 2 [true; false]; ISub 0 2; IMul 3 2%Z; Pickle 3 false;
    Construct 1 None; Reverse 0; DelSlice 0 (mkSlice None None (Some 2%Z))].
